@@ -297,6 +297,8 @@ class Driver:
         self.write_conf()
         os.makedirs(sb.path(".gwf/logs"), exist_ok=True)
         sb.write("notes.txt", "an unrelated file\n")
+        if self.variant % 5 == 2:
+            os.symlink("run-that-was-cleaned-up", sb.path("latest"))      # a dangling link next to the workflow's files
         if self.subdir:
             for f in self.files:
                 sb.write(os.path.join(self.subdir, f), "not a workflow file: %s\n" % f)
